@@ -60,19 +60,19 @@ const (
 )
 
 type hOp struct {
-	K      string `json:"k"`              // read readidx write delrow delcache setcache adv conc fault
-	ID     int    `json:"id,omitempty"`   // primary key
-	Idx    int    `json:"ix,omitempty"`   // unique index value
-	During bool   `json:"du,omitempty"`   // write/delrow: a cached read of the row inside the exec callback, before the DB changes
-	NoIdx  bool   `json:"ni,omitempty"`   // write that keeps the index value: do not name the index key
+	K      string   `json:"k"`            // read readidx write delrow delcache setcache adv conc fault
+	ID     int      `json:"id,omitempty"` // primary key
+	Idx    int      `json:"ix,omitempty"` // unique index value
+	During bool     `json:"du,omitempty"` // write/delrow: a cached read of the row inside the exec callback, before the DB changes
+	NoIdx  bool     `json:"ni,omitempty"` // write that keeps the index value: do not name the index key
 	Keys   []string `json:"ks,omitempty"` // delcache/setcache: "p<id>" / "i<idx>"
-	D      int    `json:"d,omitempty"`    // adv: seconds
-	Offs   []int  `json:"of,omitempty"`   // conc: start offsets of the readers, ms
-	Lat    int    `json:"la,omitempty"`   // conc: virtual duration of the DB callback, ms
-	ViaIdx bool   `json:"vi,omitempty"`   // conc: readers use QueryRowIndex
-	Node   int    `json:"n,omitempty"`    // fault: node
-	Mode   string `json:"m,omitempty"`    // fault: "" down get set del
-	Filt   string `json:"f,omitempty"`    // fault: "" p i (key class the fault applies to)
+	D      int      `json:"d,omitempty"`  // adv: seconds
+	Offs   []int    `json:"of,omitempty"` // conc: start offsets of the readers, ms
+	Lat    int      `json:"la,omitempty"` // conc: virtual duration of the DB callback, ms
+	ViaIdx bool     `json:"vi,omitempty"` // conc: readers use QueryRowIndex
+	Node   int      `json:"n,omitempty"`  // fault: node
+	Mode   string   `json:"m,omitempty"`  // fault: "" down get set del
+	Filt   string   `json:"f,omitempty"`  // fault: "" p i (key class the fault applies to)
 }
 
 type hCase struct {
